@@ -11,7 +11,7 @@ for s in $seeds; do
   id=${s%%-*}
   want=$(python3 -c "import json;print(json.load(open('seeded/$s/meta.json'))['confirmed_by_lead']['check_result'])")
   git -C "$wt" checkout -q -- .; git -C "$wt" clean -fdq
-  git -C "$wt" apply "seeded/$s/patch.diff" || { echo "$s APPLY-FAILED"; bad=$((bad+1)); continue; }
+  git -C "$wt" apply "$PWD/seeded/$s/patch.diff" || { echo "$s APPLY-FAILED"; bad=$((bad+1)); continue; }
   out=$(VERIF_REPO=$wt timeout 3000 ./check $id quick 2>&1); rc=$?
   v=$(echo "$out" | grep -c '^VIOLATION')
   if [ "$want" = caught ] && [ $rc -ne 1 ]; then echo "$s REGRESSION want=caught rc=$rc"; bad=$((bad+1));
